@@ -604,4 +604,17 @@ open Xs.Backends in
 example : (match nativeXiResult xiWorld [] 10 none (some "/d/".toList) xiMain Data.benv Data.ctx {} "Plain".toList with
     | .ok x => Data.primOf x "x" | .error _ => none) = some (.str "hello".toList) := by decide
 
+/-- **xml_base_witness** (finding c09-lxml-xinclude-xml-base): libxml2's XInclude adds an `xml:base`
+attribute to a root element included from another directory; the binding layer treats it like any
+other attribute: with `fail_on_unknown_attributes` the split document is rejected, the merged one
+(and the native handler's) is not. -/
+theorem xml_base_witness :
+    (match parseRoot Data.benv Data.ctx { failOnUnknownAttributes := true } "Plain".toList
+        (.node "Plain".toList [("a".toList, "7".toList), ("{http://www.w3.org/XML/1998/namespace}base".toList, "sub/p.xml".toList)]
+          [] none [] none) with
+      | .error (.parser _) => true | _ => false) = true ∧
+    Data.primOf (parseRoot Data.benv Data.ctx { failOnUnknownAttributes := true } "Plain".toList
+        (.node "Plain".toList [("a".toList, "7".toList)] [] none [] none)) "a" = some (.int 7) := by
+  decide
+
 end Props.C09
